@@ -152,6 +152,10 @@ def _filter_clusters(rc: RuleCtx, mode: str):
     members = anf.opaque("mask", knees, anf.opaque("bool", extra=repr(compare("==", clusters, i).key)), array=True)
     nmem = ev.length_of(members)
     multi = canon_sign(nmem - C(1), OPS[">"])
+    from .common import unread_helper
+    uh = unread_helper(*[e.guard for e in apps], *[v for e in apps for g, v in cases_of(e.args[0]) if not is_element_of(v, knees)])
+    if uh:
+        raise AnalysisError(f"filter_clusters[{mode}]: what is appended, or when, is decided by {uh}, a private helper whose body could not be read at this call - shape not recognised")
     lo_n, hi_n = count_true([e.guard for e in apps])
     if hi_n > 1:
         res.violation("Q2" if mode != "hull" else "Q4", fi.module, fi.name, loop, f"[{mode}] up to {hi_n} knees are emitted for one cluster", str([str(e.guard)[:80] for e in apps]),
@@ -226,8 +230,80 @@ def _filter_clusters(rc: RuleCtx, mode: str):
                           _short(g_and(g_app, multi, empty), 200), "no append", construct="hull empty span")
 
 
+def _single_emission_loop(fi) -> bool:
+    """The function has the direct form the loop readers take apart: one loop, no comprehension, the list it fills returned."""
+    n = 0
+    for x in ast.walk(fi.node):
+        if isinstance(x, (ast.For, ast.While)):
+            n += 1
+        if isinstance(x, (ast.ListComp, ast.GeneratorExp, ast.SetComp, ast.DictComp)):
+            return False
+    return n == 1
+
+
+def _corners_by_value(rc: RuleCtx):
+    """The corner variant decided on the array it returns (loops summarised, helpers read through): its length is the number of
+    clusters and its element at position j is members_j[argmax(rank_corners_triangle(points, members_j))]."""
+    from .. import elem
+    res = rc.res
+    fi = rc.func("postprocessing.filter_clusters_corners")
+    ev = rc.new_eval()
+    ev.no_inline |= {"postprocessing.rank_corners_triangle"}
+    ev.summarise_loops = True
+    pts = ev.point("points", True)
+    knees = ev.symbol("knees", True)
+    ev.len_map = {"points": sym("n"), "knees": sym("K")}
+    args = {"points": pts, "knees": knees, "clustering": ev.symbol("clustering"), "t": ev.symbol("t")}
+    try:
+        out = ev.eval_function(fi, args)
+        val = out.value()
+    except Unsupported as e:
+        raise AnalysisError(f"{fi.qualname}: not a single emission loop, and not read by value either: {e}")
+    from .common import stray_stores, unread_helper
+    if stray_stores(out):
+        raise AnalysisError(f"{fi.qualname}: the result is filled by stores the evaluation does not turn into values ({stray_stores(out)}) - shape not recognised")
+    kp = Vec([anf.opaque("take", c, knees, array=True) for c in pts.items], "point")
+    clusters = anf.opaque("slot:clustering", ev.to_rat(kp), ev.to_rat(args["t"]), array=True)
+    j = sym("j")
+    anf.declare_integer(j)
+    cases = [(g_, v_) for g_, v_ in cases_of(val) if g_sat(g_)]
+    # early exits that return the input itself are the short-input clause (Q2 / C13), not the selection
+    cases = [(g_, v_) for g_, v_ in cases if not (isinstance(v_, Rat) and v_.equals(knees))]
+    if len(cases) != 1:
+        raise AnalysisError(f"{fi.qualname}: the returned array depends on a condition ({len(cases)} cases) - shape not recognised")
+    val = cases[0][1]
+    uh = unread_helper(val)
+    if uh:
+        raise AnalysisError(f"{fi.qualname}: the returned array depends on {uh}, a private helper whose body could not be read - shape not recognised")
+    from ..seqdom import Gen, flatten, var_symbol
+    if isinstance(val, Vec) and val.kind == "list":
+        blocks = flatten(val.items)
+        if len(blocks) == 1 and isinstance(blocks[0], Gen) and blocks[0].ranged:
+            j = var_symbol(blocks[0].depth)      # conditions kept as text inside a mask mention the block's own variable
+    try:
+        got, ln = elem.element_of_value(ev, val, j)
+    except elem.NoElement as e:
+        raise AnalysisError(f"{fi.qualname}: no element view of the returned array: {e}")
+    members = anf.opaque("mask", knees, anf.opaque("bool", extra=repr(compare("==", clusters, j).key)), array=True)
+    ranks = anf.opaque("call:postprocessing.rank_corners_triangle", ev.to_rat(pts), members, array=True, extra=("points", "knees"))
+    want = _at(members, anf.opaque("argmax", ranks, array=False))
+    want_len = anf.opaque("amax", clusters, array=False) + C(1)
+    if not (isinstance(ln, Rat) and ln.equals(want_len)):
+        res.violation("Q5", fi.module, fi.name, fi.node, "corner variant: the clusters 0..max(labels) are not all represented once", _short(ln), _short(want_len),
+                      construct="corner cluster range")
+        return
+    if isinstance(got, Rat) and got.equals(want):
+        res.ok("Q5", fi.qualname, "by value: element j of the result is members_j[argmax(rank_corners_triangle(points, members_j))], one per cluster")
+        res.ok("Q6", fi.qualname, "emitted value is an element of the knees argument")
+    else:
+        res.violation("Q5", fi.module, fi.name, fi.node, "corner variant: a cluster is not represented by exactly the member maximising the corner-triangle score",
+                      _short(got, 200), _short(want, 200), construct="corner representative")
+
+
 def _corners(rc: RuleCtx):
     res = rc.res
+    if not _single_emission_loop(rc.func("postprocessing.filter_clusters_corners")):
+        return _corners_by_value(rc)
     fi, ev, env, loop, post, fr = _setup(rc, "postprocessing.filter_clusters_corners", None)
     knees, pts = env["knees"], env["points"]
     cl_ = [v for v in env.values() if isinstance(v, Rat) and single_atom(v) is not None and single_atom(v).name.startswith("slot:")]
